@@ -28,12 +28,8 @@ func init() {
 // Signatures of findings; a shape is left out of the generators only while its signature is
 // listed in /verif/known_findings.json (ev.Known).
 const (
-	// TrieBucket.FindValuesByRegexp narrows the scan by LiteralPrefix although the expression is not anchored (design D3)
-	sigRegexPrefix = "C10/regexp-literal-prefix-unanchored-on-flushed-dictionary"
 	// `k like '*'` panics in indexKVStore.FindValuesByLike (slice [1:0])
 	sigLikeStar = "C10/like-single-star-panics"
-	// PrepareFlush on an empty memory store leaves an empty non-nil immutable store behind: no later flush persists anything
-	sigWedge = "C10/flush-of-empty-memory-store-wedges-later-flushes"
 	// group-by tag values travel as one comma-joined string: a value containing ',' makes the root drop the series
 	sigComma = "C10/comma-in-grouping-tag-value-drops-series"
 	// sigFamilyFilter (dataFamily.Filter gives up when memory or files say "not found") and
@@ -170,20 +166,6 @@ func compileRx(p string) (*regexp.Regexp, error) {
 	return r, err
 }
 
-// regexExcluded: the shape behind the listed finding sigRegexPrefix (a literal prefix on an
-// expression that is not anchored at the beginning).
-func regexExcluded(p string) bool {
-	if !ev.Known(sigRegexPrefix) {
-		return false
-	}
-	r, err := compileRx(p)
-	if err != nil {
-		return true
-	}
-	lp, _ := r.LiteralPrefix()
-	return lp != "" && !(strings.HasPrefix(p, "^") && !strings.Contains(p, "|"))
-}
-
 func genRegex(t *rapid.T, pool []string) string {
 	for try := 0; try < 8; try++ {
 		v := pickExpressible(t, pool, "rxv")
@@ -222,9 +204,6 @@ func genRegex(t *rapid.T, pool []string) string {
 		if _, err := compileRx(p); err != nil {
 			continue
 		}
-		if regexExcluded(p) {
-			continue
-		}
 		return p
 	}
 	return "^web"
@@ -260,12 +239,12 @@ func genAtom(t *rapid.T, mp *metricPlan, classes map[string]bool) *cond {
 	c := &cond{}
 	// key: mostly a key of the metric, sometimes uid, rarely a key the metric never has
 	var pool []string
-	switch k := rapid.IntRange(0, 39).Draw(t, "keykind"); {
-	case k == 39:
+	switch k := rapid.IntRange(0, 79).Draw(t, "keykind"); {
+	case k == 79:
 		c.Key = "nokey"
 		pool = []string{"web", "a"}
 		classes["atom_unknown_key"] = true
-	case k >= 32:
+	case k >= 66:
 		c.Key = "uid"
 		pool = []string{"u0000", "u0001", "u0012", "u0003", "u0020", "u0100", "u0007"}
 	default:
@@ -424,7 +403,7 @@ func genShardSubset(t *rapid.T, shards []models.ShardID) []models.ShardID {
 
 func genHistory(t *rapid.T, nBatches int, nSeries int, shards []models.ShardID) []step {
 	steps := []step{{Kind: stWrite, Batch: 0}}
-	if rapid.IntRange(0, 14).Draw(t, "flushBeforeWrite") == 14 && !ev.Known(sigWedge) {
+	if rapid.IntRange(0, 14).Draw(t, "flushBeforeWrite") == 14 {
 		// a flush of a still empty database (periodic flush job on an idle database)
 		steps = []step{{Kind: stFlush, Flush: flushAll, Shards: shards}, {Kind: stWrite, Batch: 0}}
 	}
@@ -448,7 +427,7 @@ func genHistory(t *rapid.T, nBatches int, nSeries int, shards []models.ShardID) 
 			steps = append(steps, step{Kind: stWrite, Batch: next}, step{Kind: stFlush, Flush: flushAll, Shards: shards})
 			next++
 			filesSince = 1
-		case !ev.Known(sigWedge):
+		default:
 			steps = append(steps, step{Kind: stReopen})
 		}
 		extra = rapid.IntRange(0, 2).Draw(t, "extraAfterScript")
@@ -470,9 +449,6 @@ func genHistory(t *rapid.T, nBatches int, nSeries int, shards []models.ShardID) 
 		}
 		if compacted {
 			wReopen = 6 // the dictionary store reads the compacted file only after a restart or its next flush
-		}
-		if ev.Known(sigWedge) {
-			wReopen = 0 // without the repair a graceful restart may lose index entries
 		}
 		total := wWrite + wPrep + wFlush + wCompact + wReopen + wRewrite
 		k := rapid.IntRange(0, total-1).Draw(t, "stepKind")
